@@ -163,3 +163,100 @@ package gedcom
 //@   let ok = (shapeOK(dr.end.Day, dr.end.Month, dr.end.Year) && shapeOK(dr2.end.Day, dr2.end.Month, dr2.end.Year) && dr.end.IsEndOfRange && dr2.end.IsEndOfRange) && (!(dr.end.Year == 1 && dr.end.Month <= 1 && dr.end.Day <= 1) && !(dr2.end.Year == 1 && dr2.end.Month <= 1 && dr2.end.Day <= 1))
 //@   ensures order: implies(ok, result == (yearsSpec(dr.end.Day, dr.end.Month, dr.end.Year) > yearsSpec(dr2.end.Day, dr2.end.Month, dr2.end.Year)))
 //@   assigns nothing
+
+// ---------------------------------------------------------------------------
+// C12 — similarity scores
+//
+//@ spec func simSpec(dist real, maxYears real) real = ite((dist/maxYears)*(dist/maxYears) > 1.0, 0.0, 1.0 - (dist/maxYears)*(dist/maxYears))
+//@ spec func rangeYears(sd int, sm int, sy int, ed int, em int, ey int) real = (yearsSpec(sd, sm, sy) + yearsSpec(ed, em, ey))/2.0
+//
+//@ func DateRange.Similarity
+//@   props C12
+//@   let ok = shapeOK(dr.start.Day, dr.start.Month, dr.start.Year) && shapeOK(dr.end.Day, dr.end.Month, dr.end.Year) && !dr.start.IsEndOfRange && dr.end.IsEndOfRange && !(dr.end.Year == 1 && dr.end.Month <= 1 && dr.end.Day <= 1) && shapeOK(dr2.start.Day, dr2.start.Month, dr2.start.Year) && shapeOK(dr2.end.Day, dr2.end.Month, dr2.end.Year) && !dr2.start.IsEndOfRange && dr2.end.IsEndOfRange && !(dr2.end.Year == 1 && dr2.end.Month <= 1 && dr2.end.Day <= 1)
+//@   ensures value: implies(ok && maxYears > 0.0, result == simSpec(rangeYears(dr.start.Day, dr.start.Month, dr.start.Year, dr.end.Day, dr.end.Month, dr.end.Year) - rangeYears(dr2.start.Day, dr2.start.Month, dr2.start.Year, dr2.end.Day, dr2.end.Month, dr2.end.Year), maxYears))
+//@   ensures range: implies(maxYears > 0.0, 0.0 <= result && result <= 1.0)
+//@   assigns nothing
+//@ lemma sim-range props C12: forallr(d, forallr(m, implies(m > 0.0, 0.0 <= simSpec(d, m) && simSpec(d, m) <= 1.0)))
+//@ lemma sim-symmetric props C12: forallr(d, forallr(m, implies(m > 0.0, simSpec(d, m) == simSpec(-d, m))))
+//@ lemma sim-identity props C12: forallr(m, implies(m > 0.0, simSpec(0.0, m) == 1.0))
+//@ lemma sim-cutoff props C12: forallr(d, forallr(m, implies(m > 0.0 && (d > m || d < -m), simSpec(d, m) == 0.0)))
+//@ lemma sim-monotone props C12: forallr(d1, forallr(d2, forallr(m, implies(m > 0.0 && 0.0 <= d1 && d1 <= d2, simSpec(d2, m) <= simSpec(d1, m)))))
+//
+// DateNode.DateRange parses lazily and caches; for the similarity contracts it
+// is opaque: any range, writes only the two cache fields of the receiver.
+//@ func DateNode.DateRange
+//@   assigns H.gedcom.DateNode.alreadyParsed, H.gedcom.DateNode.parsedDateRange.*
+//@   trusted
+//@ func DateNode.Similarity
+//@   props C12
+//@   ensures neutral: implies(node == nil || node2 == nil, result == 0.5)
+//@   ensures range: implies(maxYears > 0.0, 0.0 <= result && result <= 1.0)
+//
+//@ func SurroundingSimilarity.WeightedSimilarity
+//@   props C12
+//@   let unit = 0.0 <= s.ParentsSimilarity && s.ParentsSimilarity <= 1.0 && 0.0 <= s.IndividualSimilarity && s.IndividualSimilarity <= 1.0 && 0.0 <= s.SpousesSimilarity && s.SpousesSimilarity <= 1.0 && 0.0 <= s.ChildrenSimilarity && s.ChildrenSimilarity <= 1.0
+//@   let weights = s.Options.IndividualWeight >= 0.0 && s.Options.ParentsWeight >= 0.0 && s.Options.SpousesWeight >= 0.0 && s.Options.ChildrenWeight >= 0.0 && s.Options.IndividualWeight + s.Options.ParentsWeight + s.Options.SpousesWeight + s.Options.ChildrenWeight == 1.0
+//@   ensures range: implies(unit && weights, 0.0 <= result && result <= 1.0)
+//@   ensures identity: implies(weights && s.ParentsSimilarity == 1.0 && s.IndividualSimilarity == 1.0 && s.SpousesSimilarity == 1.0 && s.ChildrenSimilarity == 1.0, result == 1.0)
+//@   ensures value: result == s.IndividualSimilarity*s.Options.IndividualWeight + s.ParentsSimilarity*s.Options.ParentsWeight + s.SpousesSimilarity*s.Options.SpousesWeight + s.ChildrenSimilarity*s.Options.ChildrenWeight
+//@   assigns nothing
+//@ func NewSimilarityOptions
+//@   props C12
+//@   ensures weights-sum-to-one: abs(result.IndividualWeight + result.ParentsWeight + result.SpousesWeight + result.ChildrenWeight - 1.0) <= 0.000000000001
+//@   ensures weights-nonnegative: result.IndividualWeight >= 0.0 && result.ParentsWeight >= 0.0 && result.SpousesWeight >= 0.0 && result.ChildrenWeight >= 0.0
+//@   ensures ratio: 0.0 <= result.NameToDateRatio && result.NameToDateRatio <= 1.0 && result.MaxYears > 0.0 && 0 <= result.JaroPrefixSize && result.JaroPrefixSize <= 10
+//@   assigns nothing
+//@ func NewSurroundingSimilarity
+//@   props C12
+//@   ensures result != nil && fresh(result)
+
+// ---------------------------------------------------------------------------
+// Frame contracts (K3), checked by gv's frame engine: a `frame` block lists
+// the fields an operation may write on objects that existed before the call
+// (everything else must be left alone) and, with `result-fresh`, the link
+// fields through which its result may reach only objects created by the call.
+//
+// CACHE fields (lazily filled views; the abstract document does not depend on them):
+//@ fieldgroup caches = global:gedcom.nodeCache, Document.pointerCache, Document.families, FamilyNode.husband, FamilyNode.wife, FamilyNode.cachedHusband, FamilyNode.cachedWife, IndividualNode.families, IndividualNode.spouses, IndividualNode.cachedFamilies, IndividualNode.cachedSpouses, IndividualNode.cachedUniqueIDs, DateNode.parsedDateRange*, DateNode.alreadyParsed, sync:*, sync.Map, ext:*sync.Map, ext:*bytes.Buffer, ext:*strings.Builder, closure
+// fields of a NodeDiff itself
+//@ fieldgroup diffown = NodeDiff.Left, NodeDiff.Right, NodeDiff.Children, elem:*NodeDiff
+// edges that make up a node tree
+//@ fieldgroup tree = SimpleNode.children, elem:Node, Document.nodes
+//
+// C08: computing, printing, sorting or querying a diff never modifies the compared trees
+//@ frame CompareNodes
+//@   props C08 C13
+//@   allows @caches, @diffown
+//@ frame NodeDiff.String
+//@   props C08
+//@   allows @caches, @diffown
+//@ frame NodeDiff.IsDeepEqual
+//@   props C08
+//@   allows @caches, @diffown
+//@ frame NodeDiff.Sort
+//@   props C08
+//@   allows @caches, @diffown
+//@ frame NodeDiff.Tag
+//@   props C08
+//@   allows @caches, @diffown
+//@ frame NodeDiff.traverse
+//@   props C08
+//@   allows @caches, @diffown
+//
+// C07 / C09: copies and merges are built from fresh nodes and leave their inputs alone
+//@ frame DeepCopy
+//@   props C07 C09 C13
+//@   allows @caches, Document.nodes, elem:Node
+//@   result-fresh @tree
+//@ frame MergeNodes
+//@   props C09
+//@   allows @caches, Document.nodes, elem:Node
+//@   result-fresh @tree
+//@ frame MergeNodeSlices
+//@   props C09
+//@   allows @caches, Document.nodes, elem:Node
+//@   result-fresh @tree
+//@ frame EqualityMergeFunction
+//@   props C09
+//@   allows @caches, Document.nodes, elem:Node
+//@   result-fresh @tree
